@@ -59,16 +59,30 @@ Definition cat_eqb (x y : cat) : bool :=
   match x, y with CNone, CNone | CNonAlloc, CNonAlloc | CMismatch, CMismatch | CCorrupt, CCorrupt => true | _, _ => false end.
 Definition cat_code (c : cat) : N := match c with CNone => 0 | CNonAlloc => 1 | CMismatch => 2 | CCorrupt => 3 end.
 
-Record dstate := mkD { s_tbl : table; s_tc : bool; s_mem : memory }.
-Definition d_init : dstate := mkD empty_table true [].
+(* s_period = current_period_, s_stage = current_allocation_stage_: what the detector is in when an operation arrives.
+   Neither is read on any release path; both are stamped into the record at allocation (node->period_, allocation_stage_). *)
+Record dstate := mkD { s_tbl : table; s_tc : bool; s_mem : memory; s_period : stamp; s_stage : N }.
+(* the constructor: type checking on, period disabled, stage 0 *)
+Definition d_init : dstate := mkD empty_table true [] SDisabled 0.
+Definition with_tbl (st : dstate) (t : table) : dstate := mkD t (s_tc st) (s_mem st) (s_period st) (s_stage st).
+Definition with_mem (st : dstate) (m : memory) : dstate := mkD (s_tbl st) (s_tc st) m (s_period st) (s_stage st).
+Definition with_tc (st : dstate) (b : bool) : dstate := mkD (s_tbl st) b (s_mem st) (s_period st) (s_stage st).
+Definition with_period (st : dstate) (p : stamp) : dstate := mkD (s_tbl st) (s_tc st) (s_mem st) p (s_stage st).
+Definition with_stage (st : dstate) (g : N) : dstate := mkD (s_tbl st) (s_tc st) (s_mem st) (s_period st) g.
 
-(* n_kind holds the allocator object (index) the block was allocated with *)
-Definition mk_node (a size : N) (al : nat) : node := mkNode a size 0 0 0 (N.of_nat al) SEnabled 0.
+(* enable / disable / startChecking / stopChecking: each one assigns current_period_ *)
+Inductive pop := PDisable | PEnable | PStart | PStop.
+Definition period_after (k : pop) : stamp :=
+  match k with PDisable => SDisabled | PEnable => SEnabled | PStart => SChecking | PStop => SEnabled end.
+
+(* n_kind holds the allocator object (index) the block was allocated with; period and stage are the detector's at that moment *)
+Definition mk_node (a size : N) (al : nat) (per : stamp) (stg : N) : node := mkNode a size 0 0 0 (N.of_nat al) per stg.
 Definition node_alloc (n : node) : nat := N.to_nat (n_kind n).
 
-(* storeLeakInformation: node->init, addMemoryCorruptionInformation(memory + size), addNewNode *)
+(* storeLeakInformation: node->init(.. current_period_, current_allocation_stage_ ..), addMemoryCorruptionInformation(memory + size),
+   addNewNode *)
 Definition d_store (st : dstate) (a size : N) (al : nat) : dstate :=
-  mkD (t_add (mk_node a size al) (s_tbl st)) (s_tc st) (mwrite (s_mem st) (a + size) pattern).
+  with_mem (with_tbl st (t_add (mk_node a size al (s_period st) (s_stage st)) (s_tbl st))) (mwrite (s_mem st) (a + size) pattern).
 
 (* validMemoryCorruptionInformation(memory): for i < size: if memory[i] != GuardBytes[i % 3] return false; return true *)
 Definition valid_guard (m : memory) (p : N) : bool :=
@@ -84,12 +98,12 @@ Definition check (ds : list adesc) (st : dstate) (n : node) (al : nat) : cat :=
   else if negb (valid_guard (s_mem st) (n_addr n + n_size n)) then CCorrupt
   else CNone.
 
-(* invalidateMemory *)
+(* invalidateMemory: retrieveNode, memset(memory, poison, node->size_) -- whatever the period or the stage *)
 Definition d_invalidate (st : dstate) (p : option N) : dstate :=
   match p with
   | None => st
   | Some a => match t_retrieve a (s_tbl st) with
-              | Some n => mkD (s_tbl st) (s_tc st) (mwrite (s_mem st) a (repeat poison (N.to_nat (n_size n))))
+              | Some n => with_mem st (mwrite (s_mem st) a (repeat poison (N.to_nat (n_size n))))
               | None => st
               end
   end.
@@ -103,7 +117,7 @@ Definition d_dealloc (ds : list adesc) (jump : bool) (st : dstate) (al : nat) (p
       match t_remove a (s_tbl st) with
       | (None, _) => (st, CNonAlloc, [])
       | (Some n, t') =>
-          let st' := mkD t' (s_tc st) (s_mem st) in
+          let st' := with_tbl st t' in
           let c := check ds st' n al in
           match c with
           | CNone => (st', c, [(a, n_size n)])
@@ -120,7 +134,7 @@ Definition d_realloc (ds : list adesc) (jump : bool) (st : dstate) (al : nat) (p
       match t_remove a (s_tbl st) with
       | (None, _) => (st, CNonAlloc, false)
       | (Some n, t') =>
-          let st' := mkD t' (s_tc st) (s_mem st) in
+          let st' := with_tbl st t' in
           let c := check ds st' n al in
           match c with
           | CNone => (d_store st' na size al, c, true)
@@ -130,18 +144,23 @@ Definition d_realloc (ds : list adesc) (jump : bool) (st : dstate) (al : nat) (p
   end.
 
 (* ------------------------------------------------------------------ scenario *)
-(* which library entry point: operator new/delete, operator new[]/delete[], cpputest_malloc/free/realloc, or
-   MemoryLeakAllocator::alloc_memory/free_memory called directly (the SimpleString path: no poisoning) *)
-Inductive entry := ENew | ENewArr | EMalloc | EString.
-Definition entry_eqb (x y : entry) : bool :=
-  match x, y with ENew, ENew | ENewArr, ENewArr | EMalloc, EMalloc | EString, EString => true | _, _ => false end.
+(* which library entry point: operator new/delete, operator new[]/delete[], cpputest_malloc/free/realloc,
+   MemoryLeakAllocator::alloc_memory/free_memory called directly (the SimpleString path: no poisoning), or the detector's own
+   allocMemory/deallocMemory called with an allocator object and the allocatNodesSeperately flag (record inline in the block or in a
+   block of its own -- the flag only decides where the record lives and who frees it: no poisoning, nothing else) *)
+Inductive entry := ENew | ENewArr | EMalloc | EString | EDirect (separate : bool).
+(* operator delete, operator delete[] and free call invalidateMemory first; the other two do not *)
+Definition poisons (e : entry) : bool := match e with ENew | ENewArr | EMalloc => true | _ => false end.
 
 Inductive op :=
 | OpAlloc (e : entry) (al : nat) (a size : N)          (* al = current allocator of that family / the MemoryLeakAllocator object *)
 | OpFree (e : entry) (al : nat) (p : option N)         (* None = NULL *)
 | OpRealloc (al : nat) (p : option N) (na size : N)    (* cpputest_realloc with current malloc allocator al *)
 | OpWrite (a : N) (bytes : list N)                     (* the user program writes bytes at address a *)
-| OpTypeCheck (on : bool).                             (* enable/disableAllocationTypeChecking *)
+| OpTypeCheck (on : bool)                              (* enable/disableAllocationTypeChecking *)
+| OpPeriod (k : pop)                                   (* enable / disable / startChecking / stopChecking *)
+| OpStage (up : bool)                                  (* increase/decreaseAllocationStage *)
+| OpOverloads (threadsafe : bool).                     (* turnOn(ThreadSafe|DefaultNotThreadSafe)NewDeleteOverloads: same bodies behind the lock *)
 
 Record scenario := mkS { sc_jump : bool; sc_allocs : list adesc; sc_ops : list op }.
 
@@ -166,14 +185,17 @@ Definition step (ds : list adesc) (jump : bool) (st : dstate) (o : op) : dstate 
   match o with
   | OpAlloc e al a size => (d_store st a size (det_alloc ds e al), None)
   | OpFree e al p =>
-      let st1 := match e with EString => st | _ => d_invalidate st p end in
+      let st1 := if poisons e then d_invalidate st p else st in
       let '(st2, c, fr) := d_dealloc ds jump st1 (det_alloc ds e al) p in
-      (st2, Some (mkO (calls_of c) (cat_code c) (seen st2 (entry_eqb e EString) fr) (total_of st2) false))
+      (st2, Some (mkO (calls_of c) (cat_code c) (seen st2 (negb (poisons e)) fr) (total_of st2) false))
   | OpRealloc al p na size =>
       let '(st2, c, res) := d_realloc ds jump st al p na size in
       (st2, Some (mkO (calls_of c) (cat_code c) [] (total_of st2) res))
-  | OpWrite a bs => (mkD (s_tbl st) (s_tc st) (mwrite (s_mem st) a bs), None)
-  | OpTypeCheck b => (mkD (s_tbl st) b (s_mem st), None)
+  | OpWrite a bs => (with_mem st (mwrite (s_mem st) a bs), None)
+  | OpTypeCheck b => (with_tc st b, None)
+  | OpPeriod k => (with_period st (period_after k), None)
+  | OpStage up => (with_stage st (if up then stage_inc (s_stage st) else stage_dec (s_stage st)), None)
+  | OpOverloads _ => (st, None)
   end.
 
 Fixpoint run_from (ds : list adesc) (jump : bool) (st : dstate) (ops : list op) : list oitem :=
@@ -241,12 +263,13 @@ Fixpoint spec_from (ds : list adesc) (ss : sstate) (ops : list op) (obs : list o
       spec_from ds (mkSS (mkB a size (family ds e al) pattern :: ss_blks ss) (ss_tc ss)) r obs
   | OpWrite w bs :: r => spec_from ds (mkSS (map (upd_guard w bs) (ss_blks ss)) (ss_tc ss)) r obs
   | OpTypeCheck b :: r => spec_from ds (mkSS (ss_blks ss) b) r obs
+  | OpPeriod _ :: r | OpStage _ :: r | OpOverloads _ :: r => spec_from ds ss r obs      (* the property knows no period and no stage *)
   | OpFree e al p :: r =>
       match obs with
       | [] => false
       | x :: obs' =>
           let ss' := release ss p in
-          check_release ss (family ds e al) p (negb (entry_eqb e EString)) x ss' && spec_from ds ss' r obs'
+          check_release ss (family ds e al) p (poisons e) x ss' && spec_from ds ss' r obs'
       end
   | OpRealloc al p na size :: r =>
       match obs with
@@ -306,6 +329,7 @@ Definition a_step (ds : list adesc) (jump : bool) (ss : sstate) (o : op) : sstat
   | OpAlloc e al a size => mkSS (mkB a size (family ds e al) pattern :: ss_blks ss) (ss_tc ss)
   | OpWrite w bs => mkSS (map (upd_guard w bs) (ss_blks ss)) (ss_tc ss)
   | OpTypeCheck b => mkSS (ss_blks ss) b
+  | OpPeriod _ | OpStage _ | OpOverloads _ => ss
   | OpFree _ _ p => release ss p
   | OpRealloc al p na size =>
       let c := expect ss (family ds EMalloc al) p in
@@ -319,7 +343,7 @@ Definition op_ok (ds : list adesc) (ss : sstate) (o : op) : bool :=
   | OpFree e al p => alloc_ok ds e al && ptr_ok p
   | OpRealloc al p na size => alloc_ok ds EMalloc al && ptr_ok p && addr_ok na size && negb (live na (ss_blks (release ss p)))
   | OpWrite w bs => write_ok (ss_blks ss) w bs
-  | OpTypeCheck _ => true
+  | OpTypeCheck _ | OpPeriod _ | OpStage _ | OpOverloads _ => true
   end.
 Fixpoint valid_from (ds : list adesc) (jump : bool) (ss : sstate) (ops : list op) : bool :=
   match ops with [] => true | o :: r => op_ok ds ss o && valid_from ds jump (a_step ds jump ss o) r end.
